@@ -13,6 +13,7 @@ import (
 
 	"github.com/go-logr/logr"
 	metav1 "k8s.io/apimachinery/pkg/apis/meta/v1"
+	"k8s.io/apimachinery/pkg/apis/meta/v1/unstructured"
 	"k8s.io/apimachinery/pkg/runtime"
 	"k8s.io/apimachinery/pkg/types"
 	ctrl "sigs.k8s.io/controller-runtime"
@@ -28,7 +29,8 @@ import (
 // unpack reconciler, real PackageDeployer with the real deployment reconciler, real status
 // reconciler) runs against the recording API server with a scripted image puller.
 // A scenario is an initial Package plus steps: edit the spec, arm an API fault for request #n of
-// the next pass, run one Reconcile.  Per pass the harness reports, in order, the pulls, the entries
+// the next pass, arm a concurrent writer (a third party that updates the ObjectDeployment's metadata,
+// hence its resourceVersion, right before request #n of the next pass takes effect), run one Reconcile.  Per pass the harness reports, in order, the pulls, the entries
 // into PackageDeployer.Deploy and the API requests; the persisted Package status; the stored
 // ObjectDeployment (template identified by the sha256 of its JSON); and, independently, a reference
 // render of the Package's current spec through the real loader / admission / renderer
@@ -60,9 +62,9 @@ type pkgSpec struct {
 }
 
 type pkgStep struct {
-	Op string `json:"op"` // edit | fault | pass
+	Op string `json:"op"` // edit | fault | touch | pass
 	pkgSpec
-	N        int    `json:"n"`         // fault: request number within the next pass
+	N        int    `json:"n"`         // fault, touch: request number within the next pass
 	Kind     string `json:"kind"`      // fault: err | lost
 	PullFail bool   `json:"pull_fail"` // pass: the puller fails
 }
@@ -258,6 +260,8 @@ func init() {
 
 		obs := pkgObs{Passes: []pkgPass{}}
 		pending := map[int]string{} // request number within the next pass -> fault kind
+		touches := map[int]bool{}   // request numbers of the next pass preceded by a third-party write
+		touchNo := 0
 		for i, st := range sc.Steps {
 			switch st.Op {
 			case "edit":
@@ -274,6 +278,8 @@ func init() {
 					return nil, fmt.Errorf("step %d: unknown fault kind %q", i, st.Kind)
 				}
 				pending[st.N] = st.Kind
+			case "touch":
+				touches[st.N] = true
 			case "pass":
 				cur := &adapters.GenericPackage{}
 				if err := store.Get(ctx, key, &cur.Package); err != nil {
@@ -293,6 +299,25 @@ func init() {
 				for n, kind := range pending {
 					store.Faults[base+n] = kind
 				}
+				store.Before = map[int]func(*Store){}
+				for n := range touches {
+					store.Before[base+n] = func(s *Store) {
+						// the concurrent writer: a metadata-only update of the ObjectDeployment, if there is one
+						m := s.RawGet(odKey)
+						if m == nil {
+							return
+						}
+						touchNo++
+						u := &unstructured.Unstructured{Object: m}
+						annos := u.GetAnnotations()
+						if annos == nil {
+							annos = map[string]string{}
+						}
+						annos["verif.example/touched"] = fmt.Sprint(touchNo)
+						u.SetAnnotations(annos)
+						s.RawPut(u.Object, true)
+					}
+				}
 				res, err := c.Reconcile(ctx, ctrl.Request{NamespacedName: key})
 				p.Err = pkgErrClass(err)
 				if err != nil {
@@ -307,7 +332,9 @@ func init() {
 					}
 				}
 				store.Faults = map[int]string{}
+				store.Before = map[int]func(*Store){}
 				pending = map[int]string{}
+				touches = map[int]bool{}
 
 				// events in order: marks are positioned by the length of the request log at their time
 				mi := 0
